@@ -1148,6 +1148,15 @@ def oracle(case, obs):
         if not (streaming and (aborted or normal(base["conns"]) == normal(split["conns"]))):
             ck = sorted(set(base["conns"]) | set(split["conns"]))
             bad = next(c for c in ck if base["conns"].get(c) != split["conns"].get(c))
+            def no400(seq):
+                return [t for t in (seq or []) if not (t[0] == "send" and unhx(t[1]).startswith(b"HTTP/1.1 400 "))]
+            errs = any(isinstance(f, dict) and f["error"] for f in base["flows"])
+            if bad == "0" and errs and no400(base["conns"].get(bad)) == no400(split["conns"].get(bad)):
+                v.append({"key": "two-faults-400-or-close-depends-on-timing",
+                          "what": f"a request whose head fails validation and whose body is malformed: the client gets the 400 answer "
+                                  f"only if the head is processed (hook completed) before the body error closes the connection; "
+                                  f"cuts {case['cuts'][:12]}, client {case['client'][:200]}"})
+                return v
             v.append({"key": "segmentation-changes-bytes", "what": f"connection {bad}: split (cuts {case['cuts'][:12]}) {str(split['conns'].get(bad))[:200]} vs unsplit {str(base['conns'].get(bad))[:200]}; client {case['client'][:200]}"})
     return v
 
